@@ -181,3 +181,16 @@ def run(ctx: Ctx):
         ),
     ]
     return out
+
+
+from ..mutants import Mut  # noqa: E402
+
+_C = "urwid/display/common.py"
+MUTANTS = [
+    Mut("desc-88-rejects-zero", _C, "_color_desc_88", "if not 0 <= num < 88:", "if not 0 < num < 88:", "SIB|"),
+    Mut("desc-256-cube-boundary", _C, "_color_desc_256", "if num < _GRAY_START_256:", "if num <= _GRAY_START_256:", "SIB|"),
+    Mut("true-to-256-int-unguarded", _C, "_true_to_256", "    try:\n        c256 = _parse_color_256(\"#\" + \"\".join(format(int(x, 16) // 16, \"x\") for x in (desc[1:3], desc[3:5], desc[5:7])))\n    except ValueError:\n        return None", "    c256 = _parse_color_256(\"#\" + \"\".join(format(int(x, 16) // 16, \"x\") for x in (desc[1:3], desc[3:5], desc[5:7])))", "EXC|"),
+    Mut("hash-ignores-value", _C, "AttrSpec.__hash__", "return hash((self.__class__, self.__value))", "return hash(self.__class__)", "SIB|"),
+    Mut("foreground-colour-truthiness", _C, "AttrSpec.__set_foreground", "            if color is not None:\n                raise AttrSpecError(f\"More than one color given", "            if color:\n                raise AttrSpecError(f\"More than one color given", "TRUTHY|"),
+    Mut("twin-desc-88-bounds-split", _C, "_color_desc_88", "if not 0 <= num < 88:", "if not (0 <= num < 88):", twin=True),
+]
